@@ -315,3 +315,44 @@ def as_comprehension(fn_node, expr):
                     and isinstance(lp.target, ast.Name) and len(apps[0].args) == 1:
                 return apps[0].args[0], lp.target.id, lp.iter, False
     return None
+
+
+def follow_decided(cfg, truth_of, mode=N):
+    """Terminal statements (Return / Raise ast nodes) reachable from the entry when every test that `truth_of(expr, flags)`
+    decides (returns True/False; None = undecided, both edges) is followed along the decided edge only.  Boolean locals assigned
+    from a decided expression are remembered along the path (`flag = isinstance(x, list)` ... `if flag:`)."""
+    from collections import deque
+    seen = set()
+    entry = cfg.entry.id if isinstance(cfg.entry, Node) else cfg.entry
+    dq = deque([(entry, ())])
+    ends = []
+    while dq:
+        u, fl = dq.popleft()
+        if (u, fl) in seen:
+            continue
+        seen.add((u, fl))
+        nd = cfg.nodes[u]
+        flags = dict(fl)
+        only = None
+        if nd.kind == "test":
+            t = truth_of(nd.ast, flags)
+            if t is not None:
+                only = "T" if t else "F"
+        elif nd.kind == "stmt" and isinstance(nd.ast, ast.Assign) and len(nd.ast.targets) == 1 and isinstance(nd.ast.targets[0], ast.Name):
+            t = truth_of(nd.ast.value, flags) if isinstance(nd.ast.value, (ast.Call, ast.Compare, ast.UnaryOp, ast.Constant, ast.BoolOp)) else None
+            if t is not None:
+                flags[nd.ast.targets[0].id] = t
+            else:
+                flags.pop(nd.ast.targets[0].id, None)
+        if nd.kind == "stmt" and isinstance(nd.ast, (ast.Return, ast.Raise)):
+            if not any(nd.ast is x for x in ends):
+                ends.append(nd.ast)
+            continue
+        nfl = tuple(sorted(flags.items()))
+        for e in cfg.succ[u]:
+            if not cfg.edge_ok(e, mode):
+                continue
+            if only is not None and e.label in ("T", "F") and e.label != only:
+                continue
+            dq.append((e.dst, nfl))
+    return ends
